@@ -11,21 +11,24 @@ for d in sorted(glob.glob("/verif/seeded/*/")):
     if only and sid not in only: 
         m = json.load(open(d + "meta.json")); rows.append((sid, m["breaks_property"], m.get("detected_by") or [])); continue
     meta = json.load(open(d + "meta.json"))
-    assert subprocess.run("git -C /repo diff --quiet", shell=True).returncode == 0, "/repo dirty"
+    WT = "/tmp/matrix_wt"
+    if not os.path.isdir(WT):
+        subprocess.run(f"git -C /repo worktree add -q --detach {WT} HEAD", shell=True, check=True)
+    subprocess.run(f"git -C {WT} checkout -q --detach $(git -C /repo rev-parse HEAD) && git -C {WT} checkout -- .", shell=True)
     fired = {}
     try:
-        r = subprocess.run(f"git -C /repo apply {d}patch.diff", shell=True, capture_output=True, text=True)
+        r = subprocess.run(f"git -C {WT} apply {d}patch.diff", shell=True, capture_output=True, text=True)
         if r.returncode != 0:
             meta["detected_by"] = None; meta["note"] = "patch no longer applies to /repo HEAD: " + r.stderr.strip()[:200]
         else:
             for p in claimed:
-                out = subprocess.run(["timeout", "600", "/verif/bin/sthlint", "-property", p, "-no-evidence"], capture_output=True, text=True).stdout
+                out = subprocess.run(["timeout", "600", "/verif/bin/sthlint", "-property", p, "-no-evidence", "-repo", WT], capture_output=True, text=True).stdout
                 keys = [l[4:].split(" | ")[0] for l in out.splitlines() if l.startswith("BAD ")]
                 if "engine/undecided" in out: keys.append("engine/undecided")
                 if keys: fired[p] = keys[:4]
             meta["detected_by"] = fired
     finally:
-        subprocess.run("git -C /repo checkout -- .", shell=True)
+        subprocess.run(f"git -C {WT} checkout -- .", shell=True)
     json.dump(meta, open(d + "meta.json", "w"), indent=1)
     rows.append((sid, meta["breaks_property"], fired))
     print(sid, "->", {k: v[0] for k, v in fired.items()} if fired else "MISSED", flush=True)
@@ -37,5 +40,6 @@ with open("/verif/seeded/MATRIX.md", "w") as f:
         else:
             txt = "**not caught**"
         f.write(f"| {sid} | {prop} | {txt} |\n")
+subprocess.run("git -C /repo worktree remove --force /tmp/matrix_wt", shell=True)
 n = sum(1 for _, _, f in rows if f)
 print(f"{n}/{len(rows)} caught")
